@@ -75,9 +75,21 @@ def gen(prop, stream, tier, avoid):
     for _ in range(nobj):
         kind = rng.weighted([("curve", 5), ("surface", 4), ("volume", 1.5)])
         nd_ = shapes.DIRS[kind]
-        degs = [rng.pick([1, 2, 2, 3, 3, 3, 4]) if kind == "curve" else rng.pick([1, 2, 2, 3, 3] if kind == "surface" else [1, 2, 2, 3])
+        degs = [rng.pick([1, 2, 2, 3, 3, 4, 4]) if kind == "curve" else rng.pick([1, 2, 2, 3, 3] if kind == "surface" else [1, 2, 2, 3])
                 for _ in range(nd_)]
         spec = shapes.gen_shape(rng, kind=kind, max_size=8 if kind == "curve" else (6 if kind == "surface" else 4), degrees=degs)
+        if kind == "curve" and rng.chance(0.03):
+            # a LONG curve (more control points than CPython's small-integer cache has entries): knots on a 1/4096 grid
+            n_big = rng.randint(262, 300)
+            dg_ = rng.pick([2, 3])
+            spec = {"kind": "curve", "rational": spec["rational"], "dim": spec["dim"], "degrees": [dg_], "sizes": [n_big],
+                    "knots": [shapes.gen_knots(rng, dg_, n_big, True, 4096)], "P": shapes.gen_points(rng, n_big, spec["dim"])}
+            if spec["rational"]:
+                spec["W"] = shapes.gen_weights(rng, n_big)
+            spec["big"] = True
+        elif rng.chance(0.15):
+            # a control point exactly at the origin (zero vector): tests on relative sizes must not divide by it
+            spec["P"][rng.randrange(len(spec["P"]))] = [0.0] * spec["dim"]
         spec["delta"] = rng.pick([0.5, 0.25, 0.2]) if kind != "curve" else rng.pick([0.25, 0.125, 0.1])
         if kind != "curve" and rng.chance(0.5):
             spec["deltas"] = [rng.pick([0.5, 0.25, 0.2]) for _ in range(nd_)]      # equal densities mask direction mix-ups
@@ -145,6 +157,8 @@ def gen(prop, stream, tier, avoid):
                 at = ["knot", rng.randrange(8)] if rng.chance(0.45) else ["new", rng.randint(1, 127)]
                 if rng.chance(0.06):
                     at = ["near", rng.randrange(8), rng.randrange(8)]
+                elif rng.chance(0.2):
+                    at = ["dec", rng.randint(1, 99)]        # a decimal parameter (0.37): not representable, arithmetic is inexact
                 elif objs[o].get("aL") and rng.chance(0.3):
                     at = ["zero", at[1] if at[0] == "new" else rng.randint(1, 127)]      # parameter exactly 0.0 where the range straddles zero
                 dirs[str(d)] = {"at": at, "num": rng.pick([1, 1, 2, 2, 3, 4])}
@@ -390,6 +404,8 @@ def _resolve_at(lv, d, at):
                 return u, True
             return base, True
         return a + L * 0.5, False
+    if at[0] == "dec":
+        return a + L * (at[1] / 100.0), False
     if at[0] == "zero":
         if lv.knots[d][0] < 0.0 < lv.knots[d][-1]:
             return 0.0, lv.mult(d, 0.0) > 0
